@@ -1,15 +1,15 @@
 CONSTANTS
   D = 3
   MaxEpoch = 1
-  MaxLeaves = 1
+  MaxLeaves = 3
   Export = FALSE
   MaxU = 3
   MaxI = 2
   PrevEpochChecked = TRUE
   ChildPrefixChecked = TRUE
-  PrefixFreeChecked = TRUE
+  PrefixFreeChecked = FALSE
   TopLabelChecked = TRUE
 INIT Init
 NEXT Next
-INVARIANTS EmptyTreeAbsenceProvable
+INVARIANTS ExportState AuditSound AuditDupRejected
 CHECK_DEADLOCK FALSE
